@@ -121,6 +121,8 @@ def gen_value(t, rnd, name=""):
         from contracts import _histories
         if t.args[0].endswith("weaver.Weaver"):
             return _histories.gen_weaver(rnd)
+        if t.args[0].startswith("traffic_weaver.rfa."):
+            return _histories.gen_rfa(rnd, t.args[0].rsplit(".", 1)[1])
         if t.args[0].endswith("interval.IntervalArray"):
             from traffic_weaver.interval import IntervalArray
             n = rnd.randint(1, 5)
@@ -181,6 +183,9 @@ def unjson(v):
     if isinstance(v, dict) and "__history__" in v:
         from contracts import _histories
         return _histories.build(v)
+    if isinstance(v, dict) and "__rfa__" in v:
+        from contracts import _histories
+        return _histories.build_rfa(v)
     if isinstance(v, dict) and "__fn__" in v:
         from contracts import _histories
         return _histories.build_fn(v)
